@@ -281,7 +281,7 @@ Definition btree_mem (leaf : N) (len : N) : N :=
 (* decode_vec_chunked over element decoder c: full chunks then the remainder,
    each preceded by on_before_alloc_mem(chunk_len * size_of::<T>()) *)
 Definition one_chunk (esz k : N) (c : prog val) : prog (list val) :=
-  emit (HAlloc (sat_mul k esz)) ;;; rep k c.
+  emit (HAlloc (sat_mul k esz)) ;;; emit (HReal (sat_mul k esz)) ;;; rep k c.
 Definition chunked_items (esz n : N) (c : prog val) : prog (list val) :=
   let cl := chunk_len esz in
   full <- (if n / cl =? 0 then Ret [] else rep (n / cl) (one_chunk esz cl c)) ;;
@@ -290,7 +290,7 @@ Definition chunked_items (esz n : N) (c : prog val) : prog (list val) :=
 
 (* read_vec_from_u8s: the bulk path for primitive elements of B bytes *)
 Definition one_bulk (B k : N) : prog (list byte) :=
-  emit (HAlloc (sat_mul k B)) ;;; read (k * B).
+  emit (HAlloc (sat_mul k B)) ;;; emit (HReal (sat_mul k B)) ;;; read (k * B).
 Definition bulk_bytes (B n : N) : prog (list byte) :=
   need (n * B) ;;;
   let cl := chunk_len B in
@@ -307,6 +307,11 @@ Definition words (B : N) (bs : list byte) : list N := words_fuel (length bs) (N.
 
 Definition dec_prim (B : N) : prog N :=
   if B =? 1 then (b <- read_byte ;; Ret (Byte.to_N b)) else (bs <- read B ;; Ret (le_dec bs)).
+
+(* LinkedList / BTreeMap / BTreeSet: the container allocates as elements arrive (a list node
+   per element; for the trees at most one node of `sz` bytes per element - an upper envelope of
+   the node-by-node growth), after the element has been decoded *)
+Definition node (sz : N) (c : prog val) : prog val := v <- c ;; emit (HReal sz) ;;; Ret v.
 
 Definition is_keyed (k : ckind) : bool := match k with CMap => true | _ => false end.
 
@@ -353,10 +358,10 @@ Fixpoint dec (t : ty) : prog val :=
            Ret (VSeq (match k with CHeap => sort_vals items | _ => items end))
        | CList =>
            emit HDescend ;;; emit (HAlloc (sat_mul n sz)) ;;;
-           items <- rep n (dec t') ;; emit HAscend ;;; Ret (VSeq items)
+           items <- rep n (node sz (dec t')) ;; emit HAscend ;;; Ret (VSeq items)
        | CSet | CMap =>
            emit HDescend ;;; emit (HAlloc (btree_mem sz n)) ;;;
-           items <- rep n (dec t') ;; emit HAscend ;;; Ret (VSeq (canon_set (is_keyed k) items))
+           items <- rep n (node sz (dec t')) ;; emit HAscend ;;; Ret (VSeq (canon_set (is_keyed k) items))
        end)
   | TStr =>
       n <- dec_compact 4 ;; bs <- bulk_bytes 1 n ;;
@@ -368,7 +373,7 @@ Fixpoint dec (t : ty) : prog val :=
        end)
   | TPair a b => x <- dec a ;; y <- dec b ;; Ret (VPair x y)
   | TBox sz t' =>
-      emit HDescend ;;; emit (HAlloc sz) ;;; v <- dec t' ;; emit HAscend ;;; Ret v
+      emit HDescend ;;; emit (HAlloc sz) ;;; emit (HReal sz) ;;; v <- dec t' ;; emit HAscend ;;; Ret v
   | TDuration =>
       s <- read 8 ;; n <- read 4 ;;
       (if a_billion <=? le_dec n then Fail
